@@ -106,6 +106,17 @@ pub fn execute(sc: &BlockScenario, probes: &mut Counters, states: Option<&mut Ha
     let mut states = states;
     let mut set_hash = (k as u64) << 40;
     let mut all_zero_so_far = true;
+    if sc.steps.iter().map(|s| s.len()).sum::<usize>() < 4000 {
+        // probe: receptions whose repair symbols were chosen for the weight of their LT rows
+        let rep: Vec<u32> = sc.steps.iter().flatten().copied().filter(|e| *e >= k && *e < 1 << 24).collect();
+        if rep.len() >= 4 {
+            if rep.iter().all(|e| crate::rank::lt_degree(&pr, *e) >= 8) {
+                probes.inc("all_repair_rows_heavy_degree_ge_8");
+            } else if rep.iter().all(|e| crate::rank::lt_degree(&pr, *e) <= 2) {
+                probes.inc("all_repair_rows_light_degree_le_2");
+            }
+        }
+    }
     for (at, step) in sc.steps.iter().enumerate() {
         let mut packets: Vec<EncodingPacket> = vec![];
         for &e in step {
@@ -371,7 +382,32 @@ pub fn generate(seed: u64, quick: bool) -> BlockScenario {
         }
     }
     let room = (1u32 << 24) - k;
+    // adversarial weight: in an eighth of the sequences every repair symbol is chosen, with the oracle's
+    // own Tuple[], to have a heavy LT row (degree >= 8 / 12 / 20: the first phase finds few rows with one
+    // or two ones in V and has to inactivate far more columns than for an ordinary reception) or a
+    // light one (degree <= 2). Legal ids like any others; the rank oracle decides what must happen.
+    let weight: Option<(u32, u32)> = if twins.is_empty() && r.chance(1, 8) {
+        Some(*r.pick(&[(8u32, u32::MAX), (12, u32::MAX), (12, u32::MAX), (20, u32::MAX), (0, 2)]))
+    } else {
+        None
+    };
     while (have.len() as u32) < target {
+        if let Some((lo, hi)) = weight {
+            let mut found = None;
+            for _ in 0..3000 {
+                let e = k + r.below(room as u64) as u32;
+                let d = crate::rank::lt_degree(&pr, e);
+                if d >= lo && d <= hi && !have.contains(&e) {
+                    found = Some(e);
+                    break;
+                }
+            }
+            if let Some(e) = found {
+                have.insert(e);
+                pool.push(e);
+                continue;
+            }
+        }
         let e = match r.below(10) {
             0..=5 => k + r.below(room as u64) as u32,              // anywhere in the 24-bit range
             6 | 7 => k + r.below((k as u64 * 2 + 8).min(room as u64)) as u32, // right after the source ids
@@ -596,7 +632,7 @@ pub fn run(ctx: &Ctx) -> i32 {
         violations.push(to_violation(ctx, run, &min, &f2, Some((from, to))));
     }
     let mut probes = acc.probes.clone();
-    for k in ["no_hdpc_attempt_eligible", "decoded_at_exactly_k_by_solving", "decoded_from_repair_only", "duplicate_in_sequence", "batched_step", "all_zero_symbols_of_nonzero_block_at_ge_k", "hoarded_flood_over_65536_rows"] {
+    for k in ["no_hdpc_attempt_eligible", "decoded_at_exactly_k_by_solving", "decoded_from_repair_only", "duplicate_in_sequence", "batched_step", "all_zero_symbols_of_nonzero_block_at_ge_k", "hoarded_flood_over_65536_rows", "all_repair_rows_heavy_degree_ge_8", "all_repair_rows_light_degree_le_2"] {
         probes.touch(k);
     }
     probes.add("singular_at_ge_k_prefixes", acc.singular);
